@@ -45,10 +45,21 @@ deriving Repr
 /-- what the interpreter did (observed, not modelled) -/
 structure Exec where
   vmErr   : Bool         -- receipt status 0
-  gasUsed : Nat          -- gas used reported by the state transition (after refund)
+  gasBefore : Nat        -- gas used before the refund: gasLimit − gas left after the interpreter returned
+  refundCounter : Nat    -- StateDB refund counter at the end of execution
   nLogs   : Nat
   panicked : Bool        -- a panic under the message handler (recovered by runTx)
+  meterGas : Nat := 0    -- reading of the context's gas meter, only reported for txs refused before the ante handler
 deriving Repr
+
+/-- `params.RefundQuotientEIP3529` (London is always active) -/
+def refundQuotient : Nat := 5
+
+/-- `refundGas`: refund = min(gasUsed / 5, counter) -/
+def Exec.refund (x : Exec) : Nat := min (x.gasBefore / refundQuotient) x.refundCounter
+
+/-- gas used reported by the state transition (after refund) -/
+def Exec.gasUsed (x : Exec) : Nat := x.gasBefore - x.refund
 
 inductive Class where
   | dropped            -- block gas meter already exhausted: not even the ante handler ran
@@ -117,52 +128,102 @@ def anteReject (s : BState) (t : EthTx) : Option String :=
   if t.nonce ≠ s.seq.get t.sender then some "sdk/3" else
   none
 
+/-- ante effects, written to the block state whatever happens next: fee moved to the collector,
+sequence + 1, transient tx counter + 1, assume-failed gas (= gas limit) and zero logs recorded -/
+def anteState (s : BState) (t : EthTx) : BState :=
+  { s with
+    bal := s.bal.set t.sender (s.bal.get t.sender - effPrice t s.baseFee * t.gasLimit),
+    seq := s.seq.set t.sender (s.seq.get t.sender + 1),
+    txCount := s.txCount + 1,
+    gasSlots := s.gasSlots ++ [t.gasLimit],
+    logSlots := s.logSlots ++ [0] }
+
+/-- the handler failed (error, panic, or block gas overflow after execution): message cache dropped,
+ante effects stay, `gu` is what the tx gas meter shows (and what the block meter is charged) -/
+def failedOut (s : BState) (t : EthTx) (c : Class) (gu : Nat) : BState × TxOut :=
+  ({ anteState s t with blockGas := s.blockGas + gu },
+   { noOut c t.gasLimit gu with anteIdx := some s.txCount,
+                                 dSender := -((effPrice t s.baseFee * t.gasLimit : Nat) : Int),
+                                 dCollector := ((effPrice t s.baseFee * t.gasLimit : Nat) : Int) })
+
+def cerrCond (s : BState) (t : EthTx) : Bool :=
+  decide (t.gasLimit < t.intrinsic) || (decide (t.value > 0) && decide ((anteState s t).bal.get t.sender < t.value))
+
+def oogCond (s : BState) (x : Exec) : Bool := decide (s.maxGas > 0) && decide (s.blockGas + x.gasUsed > s.maxGas.toNat)
+
+/-- execution committed (with or without a VM error) -/
+def committedOut (s : BState) (t : EthTx) (x : Exec) : BState × TxOut :=
+  let p := effPrice t s.baseFee
+  let fee := p * t.gasLimit
+  let idx := s.txCount
+  let s1 := anteState s t
+  let eg := x.gasUsed
+  let refund := (t.gasLimit - eg) * p
+  let moved := if x.vmErr then 0 else t.value
+  let bal1 := s1.bal.set t.sender (s1.bal.get t.sender + refund - moved)
+  let bal2 := match t.toWallet with
+    | some w => bal1.set w (bal1.get w + moved)
+    | none => bal1
+  ({ s1 with bal := bal2, blockGas := s.blockGas + eg,
+             gasSlots := listSet s1.gasSlots idx eg, logSlots := listSet s1.logSlots idx x.nLogs },
+   { cls := if x.vmErr then .vmerr else .ok, gasWanted := t.gasLimit, gasUsed := eg,
+     anteIdx := some idx, rcptIdx := some idx,
+     logIdx := if x.nLogs > 0 then some (sumTake s.logSlots idx) else none,
+     rcptGas := some eg, cumGas := some (eg + sumTake s.gasSlots idx),
+     status := some (if x.vmErr then 0 else 1), effPrice := some p,
+     dSender := -(fee : Int) + refund - moved + (if t.toWallet = some t.sender then (moved : Int) else 0),
+     dCollector := (fee : Int) - refund,
+     dSupply := -((if x.vmErr then 0 else t.sdBurn : Nat) : Int),
+     contract := some (t.create && !x.vmErr) })
+
 /-- one Ethereum transaction in deliver mode -/
 def stepEth (s : BState) (t : EthTx) (x : Exec) : BState × TxOut :=
   if blockExhausted s then (s, noOut .dropped 0 0) else
   if t.gasLimit < 20999 then
     -- msg.ValidateBasic in runTx: no ante, GasWanted 0; the context's own meter reading is reported and charged to the block
-    ({ s with blockGas := s.blockGas + x.gasUsed }, noOut .preBasic 0 x.gasUsed)
+    ({ s with blockGas := s.blockGas + x.meterGas }, noOut .preBasic 0 x.meterGas)
   else
   match anteReject s t with
   | some code => (s, noOut (.anteRejected code) (-1) 0)     -- infinite meter's limit cast to int64; nothing written
   | none =>
-    let p := effPrice t s.baseFee
-    let fee := p * t.gasLimit
-    let idx := s.txCount
-    -- ante effects (written to the block state whatever happens next)
-    let s1 : BState := { s with
-      bal := s.bal.set t.sender (s.bal.get t.sender - fee),
-      seq := s.seq.set t.sender (s.seq.get t.sender + 1),
-      txCount := s.txCount + 1,
-      gasSlots := s.gasSlots ++ [t.gasLimit],       -- assume-failed: gas used = gas limit
-      logSlots := s.logSlots ++ [0] }
-    let failed (c : Class) (gu : Nat) : BState × TxOut :=
-      ({ s1 with blockGas := s1.blockGas + gu },
-       { noOut c t.gasLimit gu with anteIdx := some idx, dSender := -(fee : Int), dCollector := fee })
-    if x.panicked then failed .panic 0 else
-    if t.gasLimit < t.intrinsic ∨ (t.value > 0 ∧ s1.bal.get t.sender < t.value) then failed .cerr t.gasLimit else
-    let eg := x.gasUsed
-    if s1.maxGas > 0 ∧ s1.blockGas + eg > s1.maxGas.toNat then failed .blockOog eg else
-    -- committed
-    let refund := (t.gasLimit - eg) * p
-    let moved := if x.vmErr then 0 else t.value
-    let bal1 := s1.bal.set t.sender (s1.bal.get t.sender + refund - moved)
-    let bal2 := match t.toWallet with
-      | some w => bal1.set w (bal1.get w + moved)
-      | none => bal1
-    let s2 : BState := { s1 with
-      bal := bal2, blockGas := s1.blockGas + eg,
-      gasSlots := listSet s1.gasSlots idx eg, logSlots := listSet s1.logSlots idx x.nLogs }
-    (s2, { cls := if x.vmErr then .vmerr else .ok, gasWanted := t.gasLimit, gasUsed := eg,
-           anteIdx := some idx, rcptIdx := some idx,
-           logIdx := if x.nLogs > 0 then some (sumTake s1.logSlots idx) else none,
-           rcptGas := some eg, cumGas := some (eg + sumTake s1.gasSlots idx),
-           status := some (if x.vmErr then 0 else 1), effPrice := some p,
-           dSender := -(fee : Int) + refund - moved + (if t.toWallet = some t.sender then (moved : Int) else 0),
-           dCollector := (fee : Int) - refund,
-           dSupply := -((if x.vmErr then 0 else t.sdBurn : Nat) : Int),
-           contract := some (t.create && !x.vmErr) })
+    if x.panicked then failedOut s t .panic 0 else
+    if cerrCond s t then failedOut s t .cerr t.gasLimit else
+    if oogCond s x then failedOut s t .blockOog x.gasUsed else
+    committedOut s t x
+
+/-- the seven outcomes, each with the exact result (used by every property proof) -/
+theorem stepEth_cases (s : BState) (t : EthTx) (x : Exec) :
+    (blockExhausted s = true ∧ stepEth s t x = (s, noOut .dropped 0 0)) ∨
+    (blockExhausted s = false ∧ t.gasLimit < 20999 ∧
+      stepEth s t x = ({ s with blockGas := s.blockGas + x.meterGas }, noOut .preBasic 0 x.meterGas)) ∨
+    (blockExhausted s = false ∧ ¬ t.gasLimit < 20999 ∧ ∃ code, anteReject s t = some code ∧
+      stepEth s t x = (s, noOut (.anteRejected code) (-1) 0)) ∨
+    (blockExhausted s = false ∧ ¬ t.gasLimit < 20999 ∧ anteReject s t = none ∧ x.panicked = true ∧
+      stepEth s t x = failedOut s t .panic 0) ∨
+    (blockExhausted s = false ∧ ¬ t.gasLimit < 20999 ∧ anteReject s t = none ∧ x.panicked = false ∧ cerrCond s t = true ∧
+      stepEth s t x = failedOut s t .cerr t.gasLimit) ∨
+    (blockExhausted s = false ∧ ¬ t.gasLimit < 20999 ∧ anteReject s t = none ∧ x.panicked = false ∧ cerrCond s t = false ∧
+      oogCond s x = true ∧ stepEth s t x = failedOut s t .blockOog x.gasUsed) ∨
+    (blockExhausted s = false ∧ ¬ t.gasLimit < 20999 ∧ anteReject s t = none ∧ x.panicked = false ∧ cerrCond s t = false ∧
+      oogCond s x = false ∧ stepEth s t x = committedOut s t x) := by
+  unfold stepEth
+  by_cases h0 : blockExhausted s = true
+  · simp [h0]
+  · have h0' : blockExhausted s = false := by simpa using h0
+    by_cases h1 : t.gasLimit < 20999
+    · simp [h0', h1]
+    · cases h2 : anteReject s t with
+      | some code => simp [h0', h1]
+      | none =>
+        by_cases h3 : x.panicked = true
+        · simp [h0', h1, h3]
+        · have h3' : x.panicked = false := by simpa using h3
+          cases h4 : cerrCond s t with
+          | true => simp [h0', h1, h3']
+          | false =>
+            cases h5 : oogCond s x with
+            | true => simp [h0', h1, h3']
+            | false => simp [h0', h1, h3']
 
 structure CosTx where
   sender : Nat
